@@ -251,12 +251,20 @@ def read_outs(cfg, ch, model_s, model_p, reads, ctx):
             eff_thin = thin if samples is None else max(n_burned // samples, 1)
             base_s, base_p = model_s[burn::eff_thin], model_p[burn::eff_thin]
             m = base_p.shape[0]
-            # rows outside the top fraction f of m rows: m*(1 - f), rounded down. When that product is within rounding of a whole number
-            # the count is ambiguous by one row (the implementation's float product, exact arithmetic on the float f, or ceil(f*m) are
-            # all legitimate readings): the more inclusive reading is used for "lies in the top fraction", either for the exact set
+            # rows outside the top fraction f of m rows: m*(1 - f), rounded down - where f is the fraction the caller wrote (0.9), of which the
+            # float is the nearest double: a product within m * 1e-13 below a whole number IS that whole number (1000 rows, 0.9: 100 rows
+            # outside, although 1000 * (1 - 0.9) = 99.99999999999997 in floats and in exact arithmetic on the double).  I had first called
+            # that case "ambiguous by one row, either reading legitimate" - which excused get_interval(0.9) returning all of 10 rows.
+            # Between m * 1e-13 and m * 1e-9 below a whole number either reading is accepted (no fraction a caller writes lands there).
             exact = m * (1 - Fraction(rd["interval"]))
-            cut = int(exact - Fraction(1, 10**9) * m) if exact > 0 else 0
-            cut_alt = int(exact + Fraction(1, 10**9) * m)
+            up = -((-exact.numerator) // exact.denominator)         # ceil
+            below = up - exact
+            if below <= Fraction(m, 10**13):
+                cut = cut_alt = int(up)
+            elif below <= Fraction(m, 10**9):
+                cut, cut_alt = int(exact), int(up)
+            else:
+                cut = cut_alt = int(exact)
             top_p = np.sort(base_p)[cut:]
             top_alt = np.sort(base_p)[cut_alt:]
             with warnings.catch_warnings():
